@@ -626,7 +626,7 @@ func checkRouting(c *Ctx) {
 				}
 			}
 		}
-		allInstrs(f, func(in ssa.Instruction) {
+		allInstrsDeep(f, nil, func(in ssa.Instruction) { // also helpers the reference tree does not have
 			switch x := in.(type) {
 			case *ssa.Send:
 				check(x.Chan, x.X)
